@@ -626,6 +626,15 @@ func runScenario(o *hx.Out, k int, sc *scenario) {
 			})
 			res = errClass(addErr)
 			o.Count("op:add")
+			for _, i := range before.list { // the incoming transaction meets a pooled one that conflicts with it twice over
+				if i >= 0 && d.oracle >= 0 && sc.defs[i].oracle == d.oracle && (names(d, sc.defs[i]) || names(sc.defs[i], d)) {
+					o.Count("add:meets-double-reason-conflict")
+					o.Count("add:meets-double-reason-conflict:" + res)
+					if payerOfDef(d) == payerOfDef(sc.defs[i]) {
+						o.Count("add:meets-double-reason-conflict:same-payer")
+					}
+				}
+			}
 			o.Count("add:" + res)
 		case opRemove:
 			line = fmt.Sprintf("remove %d", p.i)
